@@ -33,8 +33,15 @@ def scratch(name):
 
 
 def drop(name):
-    shutil.rmtree(os.path.join(SCR, name), ignore_errors=True)
+    import hashlib
+    dst = os.path.join(SCR, name)
+    shutil.rmtree(dst, ignore_errors=True)
     shutil.rmtree(os.path.join(SCR, "ev-" + name), ignore_errors=True)
+    # harness instances created for this scratch tree by rules/core/extract.py
+    tag = hashlib.sha256(dst.encode()).hexdigest()[:10]
+    cache = os.environ.get("VERIF_CACHE", "/var/tmp/walrus-verif-cache")
+    for crate in ("dwshim", "oshim"):
+        shutil.rmtree(os.path.join(cache, "harness-%s-%s" % (crate, tag)), ignore_errors=True)
 
 
 def mkdiff(name, prop, mut):
@@ -64,19 +71,23 @@ def parse_expect(path):
     return exp
 
 
-def run_patch(prop, path, verbose=False, repo=REPO):
-    name = "mut-%s-%s-%d" % (prop, os.path.basename(path).replace(".patch", ""), os.getpid())
+def run_patch(prop, path, verbose=False, repo=REPO, expect=None, label=None):
+    label = label or os.path.basename(path)
+    name = "mut-%s-%s-%d" % (prop, re.sub(r"[^A-Za-z0-9_.-]", "_", label).replace(".patch", ""), os.getpid())
     dst = scratch(name)
     try:
-        p = subprocess.run(["patch", "-p1", "-s", "-d", dst, "-i", path], stdout=subprocess.PIPE, stderr=subprocess.STDOUT, text=True)
+        p = subprocess.run(["patch", "-p1", "-s", "-f", "-d", dst, "-i", path], stdout=subprocess.PIPE, stderr=subprocess.STDOUT, text=True)
         if p.returncode != 0:
-            return {"patch": os.path.basename(path), "status": "patch-failed", "detail": p.stdout[-500:]}
+            return {"patch": label, "status": "patch-failed", "detail": p.stdout[-500:]}
         env = dict(os.environ)
         env["VERIF_REPO"] = dst
+        env["VERIF_INNER"] = "1"
+        env["VERIF_TIER"] = "quick"
+        env.pop("VERIF_NO_FACT_CACHE", None)
         evdir = os.path.join(SCR, "ev-" + name)
         env["VERIF_EVIDENCE_DIR"] = evdir
         q = subprocess.run([os.path.join(VERIF, "check"), prop], stdout=subprocess.PIPE, stderr=subprocess.PIPE, text=True, env=env, cwd=VERIF)
-        exp = parse_expect(path)
+        exp = expect if expect is not None else parse_expect(path)
         fired = []
         try:
             with open(os.path.join(evdir, prop + ".json")) as f:
@@ -93,7 +104,7 @@ def run_patch(prop, path, verbose=False, repo=REPO):
             status = "caught-by-other-rule"
         else:
             status = "MISSED"
-        res = {"patch": os.path.basename(path), "status": status, "expected": exp, "fired": fired[:8], "exit": q.returncode}
+        res = {"patch": label, "status": status, "expected": exp, "fired": fired[:8], "exit": q.returncode}
         if verbose or status not in ("caught",):
             res["stdout"] = q.stdout[-1500:]
             res["stderr"] = q.stderr[-1500:]
@@ -116,6 +127,38 @@ def run(prop, muts, verbose=False):
     return out
 
 
+def seeded_for(prop):
+    """seeded/<id>/meta.json entries for a property: (dir, meta)"""
+    d = os.path.join(VERIF, "seeded")
+    out = []
+    if not os.path.isdir(d):
+        return out
+    for n in sorted(os.listdir(d)):
+        mp = os.path.join(d, n, "meta.json")
+        if not os.path.exists(mp):
+            continue
+        with open(mp) as f:
+            meta = json.load(f)
+        if meta.get("property") == prop:
+            out.append((os.path.join(d, n), meta))
+    return out
+
+
+def run_seeded(prop, verbose=False):
+    """Seeded breaking changes written by independent authors (seeded/<id>/patch.diff).  Those
+    whose meta.json says the static rules decide them (`caught_by`) must be reported."""
+    out = []
+    for d, meta in seeded_for(prop):
+        exp = meta.get("caught_by") or []
+        if not exp:
+            out.append({"patch": "seeded/" + os.path.basename(d), "status": "outside-static-reach", "kind": "seeded", "expected": []})
+            continue
+        r = run_patch(prop, os.path.join(d, "patch.diff"), verbose, expect=exp, label="seeded/" + os.path.basename(d))
+        r["kind"] = "seeded"
+        out.append(r)
+    return out
+
+
 if __name__ == "__main__":
     a = sys.argv[1:]
     if not a:
@@ -131,6 +174,10 @@ if __name__ == "__main__":
         res = run(a[1], a[2:], verbose="-v" in a)
         print(json.dumps(res, indent=1))
         sys.exit(0 if all(r["status"] == "caught" for r in res) else 1)
+    elif a[0] == "seeded":
+        res = run_seeded(a[1], verbose="-v" in a)
+        print(json.dumps(res, indent=1))
+        sys.exit(0 if all(r["status"] in ("caught", "outside-static-reach") for r in res) else 1)
     elif a[0] == "runall":
         allres = {}
         bad = 0
